@@ -54,7 +54,7 @@ func genC04Many(r *rng, g *tgen, root *Ty, val *Val, buf []byte, paths [][]Step)
 }
 
 func genC04ManyMode(r *rng, g *tgen, root *Ty, val *Val, buf []byte, paths [][]Step, danger bool) {
-	rootNode := generic.NewNode(thrift.STRUCT, buf)
+	rootNode := generic.NewNode(val.T.K, buf)
 	for _, base := range paths {
 		cv := val.at(base)
 		ct := typeAt(root, base)
